@@ -35,6 +35,9 @@ type extSpec struct {
 	Yields int       `json:"yields,omitempty"` // sim_yield() calls at the top of lib.dawn
 	Same   bool      `json:"same,omitempty"`   // every version has the same content
 	Fails  bool      `json:"fails,omitempty"`  // lib.dawn fails while loading
+	// ViaGlobal: the helper reaches the project it loads only through a module global that
+	// was computed while lib.dawn loaded, not by calling the loaded helper itself.
+	ViaGlobal bool `json:"via_global,omitempty"`
 }
 
 func extPath(i int) string  { return fmt.Sprintf("github.com/verif/ext%d", i) }
@@ -120,11 +123,19 @@ func (p *projSpec) extFiles(i, v int) map[string]string {
 	if e.Fails {
 		fmt.Fprintf(&sb, "fail(\"lib.dawn of %s is broken\")\n", extPath(i))
 	}
-	fmt.Fprintf(&sb, "EXT%d_K = %s\n\n", i, e.valAt(v).render())
+	fmt.Fprintf(&sb, "EXT%d_K = %s\n", i, e.valAt(v).render())
 	parts := []string{e.litAt(v).render(), fmt.Sprintf("EXT%d_K", i)}
 	if j := e.Loads; j >= 0 && j < len(p.Exts) {
-		parts = append(parts, fmt.Sprintf("ext%d_f()", j))
+		// a global of this module computed while it loads from what the other project
+		// provides: its value depends on the version the build list selects for that project,
+		// not on this module's text
+		fmt.Fprintf(&sb, "EXT%d_D = [ext%d_f(), %d]\n", i, j, i)
+		if !e.ViaGlobal {
+			parts = append(parts, fmt.Sprintf("ext%d_f()", j))
+		}
+		parts = append(parts, fmt.Sprintf("EXT%d_D", i))
 	}
+	sb.WriteString("\n")
 	if e.Util {
 		parts = append(parts, fmt.Sprintf("EXT%d_U", i))
 	}
@@ -168,7 +179,7 @@ func (p *projSpec) extItems(i int, fn bool, out map[string]string, seen map[int]
 		return
 	}
 	out[fmt.Sprintf("extlit|%d", i)] = e.litAt(v).render()
-	out[fmt.Sprintf("extshape|%d", i)] = fmt.Sprintf("%d/%v", e.Loads, e.Util)
+	out[fmt.Sprintf("extshape|%d", i)] = fmt.Sprintf("%d/%v/%v", e.Loads, e.Util, e.ViaGlobal)
 	if e.Loads >= 0 {
 		p.extItems(e.Loads, true, out, seen)
 	}
